@@ -1,4 +1,5 @@
 import FmpRpc.Model.Conn
+import FmpRpc.Proofs.ConnInv
 /-
   C15 — a command runs only on an established connection and is retried
   exactly when due.
@@ -12,11 +13,15 @@ open FmpRpc.Cn
 theorem runs_with_published_client (fi : Bool) (s : St) (hr : Reachable fi s) :
     (∀ x, s.client = some x → Evt.onConnectOk x ∈ s.hist ∧ s.xpRegistered x = true) ∧
     (∀ w, (s.waiters w).pc = .ret none → s.client ≠ none) := by
-  sorry
+  have h := CInv.reach hr
+  exact ⟨h.cli, h.wok⟩
 
 /-- once published, a client is never unpublished -/
 theorem client_stays (s s' : St) (a : Act) (hs : step s a = some s') (h : s.client ≠ none) : s'.client ≠ none := by
-  sorry
+  cases a <;> simp only [step] at hs
+  all_goals (repeat' split at hs)
+  all_goals (try cases hs)
+  all_goals (simp only [setSeq, setWaiter, log, getReconnectChan] at * <;> grind)
 
 /-- **Retry exactly when due** — the decision `DoCommand` takes after one
     execution: success is returned; an error the handler classifies retriable
@@ -30,14 +35,14 @@ theorem retry_exactly_when_due (out : CmdOut) (sr stop : Bool) :
     (out = .eof → sr = false → afterExec out sr stop = .waitForConnectionThenRerun) ∧
     (out = .other → sr = false → afterExec out sr stop = .returnErr .other) ∧
     (out = .retriable → sr = false → afterExec out sr stop = .returnErr .retriable) := by
-  sorry
+  cases out <;> cases sr <;> cases stop <;> simp [afterExec]
 
 /-- **The wait is interruptible**: a waiter whose context has ended can return
     at once with the context's error, whatever the sequence is doing. -/
 theorem wait_interruptible (s : St) (w sid : Nat) (h : (s.waiters w).pc = .waiting sid)
     (hc : (s.waiters w).ctxDone = true) :
     ∃ s', step s (.wCtxRet w) = some s' ∧ (s'.waiters w).pc = .ret (some .ctx) := by
-  sorry
+  simp [step, h, hc, setWaiter, log]
 
 /-- a connect failure the handler declares non-retriable (or a fatal one) ends
     the sequence with that very error in the slot the waiters read -/
@@ -45,6 +50,9 @@ theorem nonretriable_connect_error_returned (s s' : St) (i : Nat) (e : CErr)
     (hp : (s.seqs i).pc = .attemptEnd (some e)) (hn : (s.seqs i).ctxCancelled = false)
     (hs : step s (.sAttemptEnd i false) = some s') :
     (s'.seqs i).pc = .release ∧ (s'.seqs i).errSlot = some e := by
-  sorry
+  simp only [step, hp, hn] at hs
+  cases e with
+  | dial f => cases f <;> simp at hs <;> cases hs <;> simp [setSeq]
+  | _ => simp at hs <;> cases hs <;> simp [setSeq]
 
 end FmpRpc.C15
